@@ -2181,9 +2181,10 @@ class SparseVector:
         other_size = other.size
         other_dct = other.dct
         if size == other_size:
-            if len(dct) > len(other_dct): 
-                raise ZeroDivisionError('division by zero')
-            new = {i: dct[i] / other_dct[i] for i in dct if i in other_dct}
+            new = {}
+            for i, j in dct.items():
+                if i in other_dct: new[i] = j / other_dct[i]
+                else: raise ZeroDivisionError('division by zero')
         elif size == 1 and other_size: 
             if 0 in dct: 
                 if len(other_dct) != other_size: raise ZeroDivisionError('division by zero')
